@@ -12,6 +12,7 @@ PKGS = [  # (package dir, harness file, name inside the package)
     ("internal/buildtags", "buildtags_verif_test.go"),
     ("internal/env", "ienv_verif_test.go"),
     ("xtool/env", "xenv_verif_test.go"),
+    ("internal/clang", "clang_verif_test.go"),
 ]
 
 
@@ -52,11 +53,24 @@ def run(ck):
             r = json.loads(line)
             recs[r["kind"]].append(r)
 
+    # -X parsing lives in internal/build (LLVM-linked package): separate overlay run
+    import e2e
+    xout = os.path.join(ck.work, "xflag.jsonl")
+    ovx = {os.path.join(vlib.REPO, "ssa", "z_verif_opaque.go"): os.path.join(vlib.ROOT, "toolchain", "src", "z_verif_opaque.go")}
+    rc, log = ck.go_test_overlay("internal/build", {"zz_verif_test.go": os.path.join(H, "xflag_verif_test.go")}, run="TestVerifXflag",
+                                 env=dict(e2e.tc_env(os.path.join(ck.work, "xdg")), VERIF_OUT=xout), tags="llvm14,verif", extra_overlay=ovx)
+    if rc != 0 or not os.path.exists(xout):
+        ck.correspondence_broken("harness:internal/build(xflag)", log[-1500:])
+    else:
+        for line in open(xout):
+            r = json.loads(line)
+            recs[r["kind"]].append(r)
+
     # property-level oracle results from the implementation
     for v in recs["viol"]:
         ck.violation(v["key"], v.get("what", ""), v)
     classes = collections.Counter()
-    for k in ("sh", "pc", "tags", "brace", "count"):
+    for k in ("sh", "pc", "tags", "brace", "count", "mergec", "mergel", "xflag"):
         for r in recs[k]:
             classes[k + ":" + r.get("class", "").split(":")[0]] += 1
 
@@ -87,6 +101,19 @@ def run(ck):
                                       coq_list(["(%s,%s)" % (nl(k), nl(v)) for k, v in (r.get("envs") or [])]),
                                       nl(r["out"])) for r in br],
             "(fun x => expand_default (fst (fst x)) (snd (fst x)) (snd x))", "str_eqb", br)
+    mc = recs["mergec"]
+    compare("merge_compiler", ["((%s, %s, %s, %s), %s)" % (nl(r["env1"]), nl(r["env2"]), nll(r["cfg1"]), nll(r["cfg2"]), nll(r["out"])) for r in mc],
+            "(fun x => merge_compiler (fst (fst (fst x))) (snd (fst (fst x))) (snd (fst x)) (snd x))", "strs_eqb", mc)
+    ml = recs["mergel"]
+    compare("merge_linker", ["((%s, %s, %s), %s)" % (nl(r["env1"]), nl(r["env2"]), nll(r["cfg1"]), nll(r["out"])) for r in ml],
+            "(fun x => merge_linker (fst (fst x)) (snd (fst x)) (snd x))", "strs_eqb", ml)
+    xf = recs["xflag"]
+    compare("xflag_split", ["(%s, %s)" % (nl(r["arg"]), "None" if r["panic"] else "(Some (%s, %s, %s))" % (nl(r["pkg"]), nl(r["name"]), nl(r["value"]))) for r in xf],
+            "xflag_split", "option_eqb (prod_eqb (prod_eqb str_eqb str_eqb) str_eqb)", xf)
+    for r in mc:
+        distinct.add(("mergec", json.dumps([r["env1"], r["env2"], r["cfg1"], r["cfg2"]])))
+    for r in xf:
+        distinct.add(("xflag", tuple(r["arg"])))
     for k in ("sh", "pc"):
         for r in recs[k]:
             if len(r["in"]) > 1:
